@@ -38,6 +38,7 @@ package dnsutils
 //@ spec func distinctRecs(m *dnsmsg.Msg) bool = distinctIn(m.Answers) && distinctIn(m.Authorities) && distinctIn(m.Additionals)
 //@        && distinctX(m.Answers, m.Authorities) && distinctX(m.Answers, m.Additionals) && distinctX(m.Authorities, m.Additionals)
 //@ spec func allAged(rs []dnsmsg.Resource, d uint32) bool = forall(k, 0, len(rs), agedRec(hdrOf(rs[k]), d))
+//@ spec func sameTypes(rs []dnsmsg.Resource) bool = forall(k, 0, len(rs), hdrOf(rs[k]).Type == old(hdrOf(rs[k]).Type) && hdrOf(rs[k]).Class == old(hdrOf(rs[k]).Class))
 //@ spec func allSame(rs []dnsmsg.Resource) bool = forall(k, 0, len(rs), sameRec(hdrOf(rs[k])))
 
 // SubtractTTL: every record other than OPT gets max(TTL-delta, 1) (TTL <= delta gives 1), OPT is untouched,
@@ -45,17 +46,20 @@ package dnsutils
 //@ func SubtractTTL(m *dnsmsg.Msg, delta uint32)
 //@   props C08
 //@   requires m != nil && wfMsg(m) && distinctRecs(m)
-//@   modifies field(dnsmsg.ResourceHdr.TTL)
+//@   modifies elems(m.Answers), elems(m.Authorities), elems(m.Additionals)
 //@   ensures [C08:aged] allAged(m.Answers, delta) && allAged(m.Authorities, delta) && allAged(m.Additionals, delta)
+//@   ensures [C08:only-ttl-changes] sameTypes(m.Answers) && sameTypes(m.Authorities) && sameTypes(m.Additionals)
 //@   loop 1:
-//@     modifies field(dnsmsg.ResourceHdr.TTL)
+//@     modifies elems(old(m.Answers)), elems(old(m.Authorities)), elems(old(m.Additionals))
 //@     invariant -1 <= rangeindex && rangeindex <= 2
+//@     invariant sameTypes(m.Answers) && sameTypes(m.Authorities) && sameTypes(m.Additionals)
 //@     invariant (rangeindex >= 0 ? allAged(m.Answers, delta) : allSame(m.Answers))
 //@     invariant (rangeindex >= 1 ? allAged(m.Authorities, delta) : allSame(m.Authorities))
 //@     invariant (rangeindex >= 2 ? allAged(m.Additionals, delta) : allSame(m.Additionals))
 //@   loop 2:
-//@     modifies field(dnsmsg.ResourceHdr.TTL)
+//@     modifies elems(old(m.Answers)), elems(old(m.Authorities)), elems(old(m.Additionals))
 //@     invariant 0 <= rangeindex && rangeindex <= 2 && sameSlice(rs, secN(m, rangeindex), 0, len(rs))
+//@     invariant sameTypes(m.Answers) && sameTypes(m.Authorities) && sameTypes(m.Additionals)
 //@     invariant (rangeindex >= 1 ? allAged(m.Answers, delta) : (rangeindex == 0 ? true : allSame(m.Answers)))
 //@     invariant (rangeindex >= 2 ? allAged(m.Authorities, delta) : (rangeindex == 1 ? true : allSame(m.Authorities)))
 //@     invariant (rangeindex == 2 ? true : allSame(m.Additionals))
@@ -71,8 +75,8 @@ package dnsutils
 //@   ghost nRead int = 0
 //@   ghost flen int = 0
 //@   oncall ReadFull: nRead = nRead + 1
-//@   modifies pkgheaps(dnsmsg), bytes()
-//@   ensures err == nil ==> m != nil && fresh(m) && wfMsg(m)
+//@   modifies nothing
+//@   ensures err == nil ==> m != nil && fresh(m) && wfMsg(m) && freshElems(m)
 //@   ensures [C13:consumed-exactly-one-frame] err == nil ==> nRead == 2 && n == 2 + flen
 //@   ensures err != nil ==> m == nil
 //@   callsite ReadFull: [C13:prefix-then-exactly-the-body] (nRead == 0 ? len(arg1) == 2 : len(arg1) == int(BE16(hdrBuf, 0))) && fresh(arg1)
@@ -85,7 +89,7 @@ package dnsutils
 //@   requires c != nil && bufSize <= 1048576
 //@   ghost gn int = 0
 //@   aftercall Read: gn = ret0
-//@   modifies pkgheaps(dnsmsg), bytes()
-//@   ensures err == nil ==> m != nil && fresh(m) && wfMsg(m)
+//@   modifies nothing
+//@   ensures err == nil ==> m != nil && fresh(m) && wfMsg(m) && freshElems(m)
 //@   ensures err != nil ==> m == nil
 //@   callsite UnpackMsg: [C01:decodes-what-was-read] len(arg0) == gn
